@@ -1,0 +1,13 @@
+//go:build verif
+
+package flows
+
+import "github.com/agglayer/aggkit/aggsender/types"
+
+// VerifLimitCertSize runs the real (*baseFlow).limitCertSize with MaxCertSize = maxCertSize.
+// Thin wrapper for the /verif C17 harness; limitCertSize reads only f.cfg.MaxCertSize and f.log.
+func VerifLimitCertSize(maxCertSize uint, log types.Logger,
+	fullCert *types.CertificateBuildParams) (*types.CertificateBuildParams, error) {
+	f := &baseFlow{cfg: BaseFlowConfig{MaxCertSize: maxCertSize}, log: log}
+	return f.limitCertSize(fullCert)
+}
